@@ -94,10 +94,11 @@ def wrap(v, ct):
 
 
 class Eval:
-    def __init__(self, env=None, call=None, deref=None, max_steps=20000, node_hook=None):
+    def __init__(self, env=None, call=None, deref=None, max_steps=20000, node_hook=None, store=None):
         self.env = dict(env or {})       # decl id -> value
         self.call = call                 # f(name, [values], node) -> value
         self.deref = deref               # f(address, node) -> value
+        self.store = store               # f(address, value, node): write through a pointer (`*p = v`, `p[i] = v`, `++*p`)
         self.node_hook = node_hook       # f(node, evaluator) -> value or NotImplemented (checked first)
         self.steps = 0
         self.max_steps = max_steps
@@ -110,16 +111,32 @@ class Eval:
         if n.get("kind") == "MemberExpr":
             # a struct/union member lvalue is a slot named by its access path
             return ("member:" + A.src(n).replace(" ", ""), n)
+        if self.store is not None and n.get("kind") == "UnaryOperator" and n.get("opcode") == "*":
+            return (("mem", self.ev(A.kids(n)[0])), n)
+        if self.store is not None and n.get("kind") == "ArraySubscriptExpr":
+            base = self.ev(A.kids(n)[0])
+            idx = self.ev(A.kids(n)[1])
+            ct = ctype(A.qtype(A.kids(n)[0]))
+            if ct[0] != "ptr" or not ct[1]:
+                raise Unknown("subscript of unknown element size", n)
+            return (("mem", base + idx * ct[1]), n)
         raise Unknown("unsupported lvalue " + str(n.get("kind")), n)
 
     def _load(self, n):
         i, node = self._lv(n)
+        if isinstance(i, tuple) and i[0] == "mem":
+            if self.deref is None:
+                raise Unknown("dereference without memory model", n)
+            return self.deref(i[1], node)
         if i not in self.env:
             raise Unknown("unbound variable " + str((node.get("referencedDecl") or {}).get("name") or i), n)
         return self.env[i]
 
     def _store(self, n, v):
         i, node = self._lv(n)
+        if isinstance(i, tuple) and i[0] == "mem":
+            self.store(i[1], wrap(v, ctype(A.qtype(node))), node)
+            return
         self.env[i] = wrap(v, ctype(A.qtype(node)))
 
     # ------------------------------------------------------------ expressions
@@ -212,7 +229,11 @@ class Eval:
             if op == "=":
                 v = self.ev(ks[1])
                 self._store(ks[0], v)
-                return self._load(ks[0])
+                i_, node_ = self._lv(ks[0]) if A.strip(ks[0]).get("kind") in ("DeclRefExpr", "MemberExpr") else (None, None)
+                if i_ is not None:
+                    return self.env[i_]
+                ct_ = ctype(A.qtype(ks[0]))          # a store through a pointer: the value as converted to the lvalue's type
+                return wrap(v, ct_) if ct_[0] in ("int", "ptr") and isinstance(v, int) else v
             if op == ",":
                 self.ev(ks[0])
                 return self.ev(ks[1])
@@ -249,6 +270,13 @@ class Eval:
             if self.call is None:
                 raise Unknown("call to " + str(name), n)
             return self.call(name, [self.ev(a) for a in ks[1:]], n)
+        if k == "ArraySubscriptExpr" and self.deref is not None:
+            base = self.ev(ks[0])
+            idx = self.ev(ks[1])
+            ct = ctype(A.qtype(ks[0]))
+            if ct[0] != "ptr" or not ct[1] or not isinstance(base, int) or not isinstance(idx, int):
+                raise Unknown("subscript not evaluable", n)
+            return self.deref(base + idx * ct[1], n)
         if k == "UnaryExprOrTypeTraitExpr" and n.get("name") == "sizeof":
             t = (n.get("argType") or {}).get("qualType")
             if t and _clean(t) in SIZEOF:
